@@ -4,6 +4,7 @@ import GapicModel.Lemmas.RegexSound
 import GapicModel.Lemmas.WsRegex
 import GapicModel.Lemmas.Textwrap
 import GapicModel.Lemmas.WrapWhole
+import GapicModel.Lemmas.WrapWidth
 import GapicModel.Pinned.Funcs
 /-
 C20 — whitespace clean-up never changes code meaning (fix_whitespace part).
@@ -235,6 +236,25 @@ IndexError on a blank first line.) -/
 theorem wrap_never_raises (text : List Char) (width : Int) (offset : Option Int) (indent : Nat)
     (hw : 0 < width) (ho : offset.getD indent < width) : (wrap T text width offset indent).isSome = true :=
   Lemmas.WrapWhole.wrap_isSome text width offset indent hw ho
+
+open GapicModel.Model.Wrap GapicModel.Lemmas.WrapWidth in
+/-- **Wrapping never exceeds the requested width except for a single unbreakable word** — `lines.wrap` as a
+whole, string level: every line (`out.split("\n")`) of the result has at most `width` characters or is ONE
+unbreakable word (no ASCII whitespace — what `textwrap` may break at) behind an indent of spaces
+(`LineOK`/`OneChunk`, `Lemmas/WrapWidth.lean`), and the first line has at most `width - offset` characters or
+is one unbreakable word. Hypothesis: the offset is not negative (the property's `offset < width` is only
+needed for `wrap_never_raises`). -/
+theorem wrap_width_bound (text : List Char) (width : Int) (offset : Option Int) (indent : Nat) (out : List Char)
+    (ho0 : 0 ≤ offset.getD indent) (h : wrap T text width offset indent = some out) :
+    (∀ l ∈ splitOn '\n' out, LineOK width.toNat l) ∧
+      (∀ l0, (splitOn '\n' out).head? = some l0 → LineOK (width - offset.getD indent).toNat l0) :=
+  Lemmas.WrapWidth.wrap_width text width offset indent out ho0 h
+
+open GapicModel.Model.Wrap GapicModel.Lemmas.WrapWidth in
+/-- non-vacuity of `wrap_width_bound`: a line that exceeds the width is exactly the unbreakable-word case -/
+example : wrap T "do-not-break me".toList 5 none 0 = some "do-not-break\nme".toList ∧
+    OneChunk "do-not-break".toList := by
+  refine ⟨by decide, [], "do-not-break".toList, rfl, by simp, by decide⟩
 
 /-- the colon rule of `wrap` (`re.sub(r":\n([^\n])", r":\n\n\1", text)`), run by the regex engine on the
 pattern the translator extracts from the source, IS the plain function `colonSub` the proof reasons about -/
